@@ -416,6 +416,19 @@ def run(ctx):
         ctx.ob("C01.R6", fi, ok, "%s._build rejects an object whose length differs from the count" % cls, key="%s count guard" % cls)
     ctx.floor("C01.R6", 20)
 
+    # ---------------------------------------------------------------- R7 the delimiters and encodings both directions must agree on (shared rules)
+    # VarInt: what _build emits is canonical LEB128 that _parse's loop terminates on (C03.R7); terminated strings: the terminator unit table
+    # (C03.R2) and NullTerminated's unit-wide reads / step-back by len(term) (C08.R2); NullStripped drops only pad (C08.R4)
+    from .. import interval
+    from . import C03, C08
+    interval.leb128_obligations(ctx, "C01.R7")
+    C03.unit_table_check(ctx, "C01.R7")
+    fi, paths = own_method_paths(ctx, "NullTerminated", "_parse")
+    C08.null_terminated(ctx, fi, paths, "C01.R7")
+    fi, paths = own_method_paths(ctx, "NullStripped", "_parse")
+    C08.null_stripped(ctx, fi, paths, "C01.R7")
+    ctx.floor("C01.R7", 20)
+
     # positive control: chain with a dropped swap in build
     ctl = control_model(
         "def evaluate(param, context):\n    return param(context) if callable(param) else param\n"
